@@ -72,7 +72,7 @@ func (t *Term) APOf() (string, bool) {
 		return "recv", true
 	case "param":
 		return "p:" + t.S, true
-	case "load", "free", "global":
+	case "load", "free", "global", "addr":
 		return t.S, true
 	case "call", "phi":
 		if t.V != nil {
@@ -368,6 +368,11 @@ func (o *Originator) alloc(al *ssa.Alloc, c *octx) *Term {
 			val *Term
 		}
 		var fields []fs
+		type promoted struct {
+			name string
+			val  *Term
+		}
+		var proms []promoted
 		for _, r := range *al.Referrers() {
 			fa, ok := r.(*ssa.FieldAddr)
 			if !ok {
@@ -377,12 +382,24 @@ func (o *Originator) alloc(al *ssa.Alloc, c *octx) *Term {
 				if s, ok := rr.(*ssa.Store); ok && s.Addr == ssa.Value(fa) {
 					fields = append(fields, fs{fa.Field, o.of(s.Val, c)})
 				}
+				// fields of an embedded struct value of the module are fields of this struct (promotion)
+				if inner, ok := rr.(*ssa.FieldAddr); ok && fieldEmbeddedStruct(al.Type(), fa.Field) {
+					for _, r3 := range *inner.Referrers() {
+						if s, ok := r3.(*ssa.Store); ok && s.Addr == ssa.Value(inner) {
+							proms = append(proms, promoted{FieldName(inner.X.Type(), inner.Field), o.of(s.Val, c)})
+						}
+					}
+				}
 			}
 		}
 		sort.SliceStable(fields, func(i, j int) bool { return fields[i].idx < fields[j].idx })
 		for _, f := range fields {
 			t.Args = append(t.Args, f.val)
 			t.Names = append(t.Names, st.Field(f.idx).Name())
+		}
+		for _, pf := range proms {
+			t.Args = append(t.Args, pf.val)
+			t.Names = append(t.Names, pf.name)
 		}
 		return t
 	}
@@ -621,14 +638,17 @@ func FlattenConcat(t *Term) []*Term {
 		}
 		return out
 	case t.Op == "call" && t.S == "slices.Concat":
-		// single variadic list argument
+		// single variadic list argument; a nil operand adds nothing
 		var out []*Term
 		for _, a := range t.Args {
 			if a.Op == "list" {
 				for _, e := range a.Args {
+					if e.Op == "const" && e.S == "nil" {
+						continue
+					}
 					out = append(out, FlattenConcat(e)...)
 				}
-			} else {
+			} else if !(a.Op == "const" && a.S == "nil") {
 				out = append(out, FlattenConcat(a)...)
 			}
 		}
